@@ -309,6 +309,10 @@ def ax_dec(a):
 # NumPy interpreter
 
 
+ORDER_SENSITIVE = {"cumulative_sum", "cumulative_prod", "nancumsum", "nancumprod", "sum", "prod", "nansum", "nanprod", "mean", "nanmean",
+                   "var", "std", "nanvar", "nanstd", "matmul", "tensordot", "vecdot", "map_overlap_sum3", "gufunc_mean_last"}
+
+
 class NumpyReject(Exception):
     pass
 
@@ -836,6 +840,30 @@ class Gen:
                     with np.errstate(all="ignore"):
                         m = np.abs(a0[np.isfinite(a0)])
                     if m.size and float(m.max()) > 1e5:
+                        return None
+            if node["op"] in ("remainder", "floor_divide", "floor", "ceil", "trunc", "round") and node["in"]:
+                # discontinuous functions evaluated (almost) at a jump: a last-bit difference in the argument -
+                # e.g. linspace computed per block - flips the result between 0 and the divisor
+                a0 = vals.get(node["in"][0])
+                src_exact = nodes[node["in"][0]]["op"] == "leaf"
+                if isinstance(a0, np.ndarray) and a0.dtype.kind == "f" and a0.size and not src_exact:
+                    b0 = node["p"].get("scalar") if len(node["in"]) == 1 else vals.get(node["in"][1])
+                    if node["op"] in ("remainder", "floor_divide") and b0 is not None:
+                        with np.errstate(all="ignore"):
+                            q = (np.asarray(b0, dtype="f8") / a0.astype("f8")) if node["p"].get("swap") else (a0.astype("f8") / np.asarray(b0, dtype="f8"))
+                    else:
+                        q = a0.astype("f8")
+                    with np.errstate(all="ignore"):
+                        q = q[np.isfinite(q)]
+                        if q.size and np.any(np.abs(q - np.rint(q)) < 1e-9 * np.maximum(1.0, np.abs(q))):
+                            return None
+            if node["op"] in ORDER_SENSITIVE and isinstance(v, np.ndarray) and v.dtype.kind in "fc":
+                # accumulations whose float result overflowed: whether an intermediate overflows depends on the
+                # order of accumulation (NumPy's sequential cumprod hits inf where a blocked scan does not),
+                # so there is no single right answer to compare with
+                ins_ = [vals.get(k) for k in node["in"]]
+                with np.errstate(all="ignore"):
+                    if np.isinf(v).any() and not any(isinstance(x, np.ndarray) and x.dtype.kind in "fc" and np.isinf(x).any() for x in ins_):
                         return None
             # keep computations small: the cost of a run is ~10 ms per task
             vs = v if isinstance(v, tuple) else (v,)
